@@ -26,7 +26,9 @@ ASSUMPTIONS = [
     "lists are compared only when the first differing position holds same-kind elements",
 ]
 
-STR_ALPHA = [" ", "!", "\"", "#", "&", "'", "(", "A", "a", "b", "~", "é", "\t", "\\", "0", "9"]
+STR_ALPHA = [" ", "!", "\"", "#", "&", "'", "(", "A", "a", "b", "~", "é", "\t", "\\", "0", "9",
+             # beyond the basic plane vs. the top of it: code-point order differs from UTF-16 code-unit order here
+             "\uff21", "\U0001f600", "\ue000", "\ufffd", "\U00010000", "\u65e5", "\ud7ff"]
 
 
 def plan(tier, seed):
@@ -70,7 +72,8 @@ def make_pool(r, kind, n):
                 ("dec", -0.0), ("int", 0), ("dec", 0.1), ("int", 10**30), ("dec", 1e30), ("int", -1)]
     if kind == "str":
         pool = [("str", ""), ("str", "a"), ("str", "a b"), ("str", "a'"), ("str", "a!"), ("str", "'"),
-                ("str", "a\\"), ("str", "a\t"), ("str", "ab"), ("str", "a'b"), ("str", "a~")]
+                ("str", "a\\"), ("str", "a\t"), ("str", "ab"), ("str", "a'b"), ("str", "a~"),
+                ("str", "\uff21"), ("str", "\U0001f600"), ("str", "a\U0001f600"), ("str", "a\uff21"), ("str", "\ue000b"), ("str", "\U00010000")]
     if kind == "bool":
         pool = [("bool", True), ("bool", False), ("bool", True), ("bool", False)]
     if kind == "list":
@@ -345,7 +348,8 @@ def run_sorting(spec, ctx):
             continue
         if form == 7:
             # key / cmp functions that sort something themselves while the outer sort is running
-            pairs = [("list", (x, ("int", i))) for i, x in enumerate(items)]
+            tags_ = r.sample(range(100), len(items))      # (not ascending: a tie broken by comparing the pairs themselves shows)
+            pairs = [("list", (x, ("int", tags_[i]))) for i, x in enumerate(items)]
             lit = "[%s]" % ", ".join(gv.to_source(p_, r) for p_ in pairs)
             inner = "[%s]" % ", ".join(str(r.randint(0, 9)) for _ in range(r.choice([0, 1, 2, 3, 5, 8, 13])))
             which = r.randrange(4)
@@ -381,7 +385,8 @@ def run_sorting(spec, ctx):
                 ctx.violation("C07:sorted:plain:" + kind, "%s -> %s: %s" % (src, core.safe_str(o.value), bad), {"src": src})
         elif form in (1, 2):
             # [key, tag] pairs sorted by key function; tags witness stability
-            pairs = [("list", (x, ("int", i))) for i, x in enumerate(items)]
+            tags_ = r.sample(range(100), len(items))      # (not ascending: a tie broken by comparing the pairs themselves shows)
+            pairs = [("list", (x, ("int", tags_[i]))) for i, x in enumerate(items)]
             lit = "[%s]" % ", ".join(gv.to_source(p, r) for p in pairs)
             if form == 1:
                 src = "sorted(%s, key = fn(p) p[0])" % lit
